@@ -68,6 +68,22 @@ CHECKS = {
              text='With no mutable global, static or thread-local object defined in any library unit (all three backends), every store and every write made through a callee landing in a local, in the function\'s own allocation or behind a non-const pointer parameter, and only re-entrant externals called, two threads using their own eav_t / result / decoder objects touch disjoint memory: there is nothing to race on under any schedule.',
              note='Thread-safety of libc and the IDN libraries is assumed as documented. Flow-insensitive base-object resolution over -O0 IR; an unattributable store is reported, not ignored.',
              ref='DESIGN.md section 3 / C14'),
+ 'C06': dict(level='other', technique='bundle of enumerate-and-justify rules: scanner memory safety and progress by exhaustive automaton exploration with out-of-range reads as violations; pointer-provenance def-use on every path of the non-scanner code; buffer-bound guards; abort-site, allocation-pairing, loop and store-target rules',
+             text='Not a proof of absence of all undefined behaviour. Every dangerous construct of each kind is enumerated from the current source and must be justified by a recognised guard: (R6.2s) for all seven scanners, on every input of every length, no read before the first byte or past the terminator and every iteration advances (Engine B, exhaustive); (R6.2p) every pointer given to a NUL-scanning libc function, to the library\'s own validators, copied from or dereferenced with an offset derives from the input within [first byte, terminator] on every path; (R6.3) every write into a local array is bounded below its size; (R6.1) no eav_t field read before eav_init wrote it; (R6.6) abort sites are exactly the known unreachable ones; (R6.7) records and converter buffers are paired; (R6.8) loops progress without hidden quadratic libc calls; (R14.x) stores stay in caller-owned or local memory.',
+             note='One frozen invariant is used and named in the evidence: in is_special_domain a strchr(_, ".") result used without NULL test is justified by the counting loop (C09 R9.4). Not decided: signed overflow for inputs above 2^31 bytes, anything inside libc / the IDN library; linear time is argued from one-pass progress, not measured.',
+             ref='DESIGN.md section 3 / C06'),
+ 'C17': dict(level='model_checking', technique='make dry-run diffs over all 8 option combinations + preprocessor identity of every other unit + automata extracted under the options compared with option-specific specifications / sibling scanners',
+             text='R17.1: OPTION=ON adds exactly -DOPTION. R17.2: every unit except the documented one preprocesses byte-identically under all 8 combinations and the macros occur nowhere else, which proves that every other decision is unchanged without looking at any input. O17.3: under RFC20 the 6531 scanner equals the 5321+UTF-8 specification minus the seven RFC 20 graphics outside quotes; under RFC5322 it agrees with the extracted is_5322_local on every pure-ASCII string (both with the other option at both values); under UNDERSCORE is_ascii_domain satisfies the C04 rules with _ as a letter.',
+             note='Trusts clang-14 preprocessor/AST and lib/scanex.py. Options are passed as OPTION=ON on the make command line.',
+             ref='DESIGN.md section 3 / C17'),
+ 'C18': dict(level='other', technique='sibling path-summary agreement of the three backend source sets (two parsed against stub headers) + explicit exploration of the resource typestate over all call histories + Makefile backend selection',
+             text='Repository side only: eav_init/eav_setup/eav_is_email/eav_free/is_6531_email/is_utf8_domain of the three backends agree under the backend vocabulary; the abstract object state (initialized flag, resolver live) is explored over every history init.(setup|is_email)*.free with the path summaries as transitions: create only when absent, destroy only when present, flag equals truth, nothing left after eav_free; FORCE_IDN selects exactly one source set with its -DHAVE flag.',
+             note='libidn and idnkit are not installed: their source sets are parsed, never compiled. Equivalence of the libraries\' conversions is the statement\'s own hypothesis.',
+             ref='DESIGN.md section 3 / C18'),
+ 'C20': dict(level='other', technique='path rules over every loop iteration of parse_file and over sanitize_utf8/main: guards of offset reads and static-buffer writes, abort reachability, verdict-per-line structure, trimming order',
+             text='Robustness: the len - 1 access is dominated by len > 0, every copy into and index of the 2 KiB echo buffer is dominated by a guard on the same position and length, no abort/assert is reachable from main. Verdict structure: each of the ~240 iteration paths prints exactly one PASS/FAIL unless the line is a comment, on eav_is_email(eav, view, strlen(view)) for the trimmed view, FAIL followed by eav_errstr; main keeps eav_init defaults and calls eav_setup once; trimming order as stated. The echo clause is declined and listed as not decided.',
+             note='getline/stdio behaviour assumed. sanitize() in bin/main.h is unreachable from main (used by tests only).',
+             ref='DESIGN.md section 3 / C20'),
 }
 
 NOT_YET = {}
